@@ -1,5 +1,160 @@
-"""proof-tier driver shared by the checks (filled in by pyvc)"""
+"""Proof tier shared by the checks: run pyvc on the functions under contract for a property,
+discharge the obligations, re-check the Lean lemma layer, and turn failures into verdicts.
+
+Verdict rules (DESIGN 2.6)
+* decisive obligation (post / pre / hazard / raises-* / yield / post-exc) not proved:
+    - the function's native hook (contract['native']) searches a concrete failing input on the REAL code
+      -> VIOLATION with that input as replay
+    - none found -> VIOLATION ... no-failing-input-found (replay file names the obligation, carries solver output)
+* only auxiliary obligations (inv-init / inv-pres / decreases) fail, or the function left the supported
+  subset (UNSUPPORTED): PROOF-DEGRADED, no alarm from the proof tier; the bounded tier of the property decides.
+* zero obligations generated for a registered function, or fewer obligations than the committed minimum: checker error.
+"""
+import importlib
+import json
+import os
+import subprocess
+import time
+
+from vlib import core
+
+CONTRACT_MODULES = ['contracts.graphs_dag', 'contracts.formula_cnf']
+DECISIVE = {'post', 'pre', 'hazard', 'raises-iff', 'raises-only', 'yield', 'post-exc'}
+BASELINE = os.path.join(core.VERIF, 'baseline_obligations.json')
 
 
-def run_group(ctx, group):
-    pass
+def _all_contract_modules():
+    mods = []
+    d = os.path.join(core.VERIF, 'contracts')
+    for f in sorted(os.listdir(d)):
+        if f.endswith('.py') and f != '__init__.py':
+            mods.append('contracts.' + f[:-3])
+    return mods
+
+
+def clause_props(contract, kind, name):
+    """which properties an obligation belongs to: per-clause tags, else the contract's property list"""
+    tags = contract.get('tags', {})
+    for pat, props in tags.items():
+        if pat in name:
+            return props
+    props = contract.get('property', [])
+    if kind in ('post', 'post-exc', 'yield'):
+        return props
+    return props[:1] if props else []
+
+
+def run_group(ctx, prop, lean=True):
+    from pyvc import engine, solve, run as pyrun
+    mods = _all_contract_modules()
+    contracts, models = pyrun.load_contracts(mods)
+    repo = engine.Repo(core.REPO)
+    baseline = json.load(open(BASELINE)) if os.path.exists(BASELINE) else {}
+    todo = [(k, c) for k, c in contracts.items()
+            if prop in c.get('property', []) and not (c.get('inline_always') or c.get('assumed') or c.get('trusted'))]
+    p = ctx.proof
+    all_obs = []
+    per_func = {}
+    t0 = time.time()
+    for (rel, qual), c in todo:
+        eng = engine.Engine(repo, contracts, models)
+        fname = '{}:{}'.format(rel, qual)
+        try:
+            obs = eng.verify(rel, qual)
+        except engine.Unsupported as e:
+            p['unsupported'].append({'function': fname, 'reason': str(e)})
+            print('PROOF-DEGRADED {}: function left the supported subset ({}); decided by the bounded tier only'.format(fname, e))
+            continue
+        except (KeyError, FileNotFoundError) as e:
+            p['unsupported'].append({'function': fname, 'reason': 'not found: {}'.format(e)})
+            print('PROOF-DEGRADED {}: function not found in the tree ({})'.format(fname, e))
+            continue
+        mine = [ob for ob in obs if prop in clause_props(c, ob.kind, ob.name)
+                or ob.kind in ('inv-init', 'inv-pres', 'decreases')]
+        if not obs:
+            raise RuntimeError('vacuity guard: zero obligations generated for ' + fname)
+        if eng.exits['normal'] == 0 and not c.get('never_returns'):
+            raise RuntimeError('vacuity guard: no feasible normal exit of {} under its precondition'.format(fname))
+        p['vacuity_guards'] += 1
+        per_func[fname] = (c, mine, eng.exits)
+        all_obs.extend(mine)
+        p['functions'].append(fname)
+    p['solver_s'] += solve.discharge(all_obs)
+    for fname, (c, obs, exits) in per_func.items():
+        failed_dec, failed_aux = [], []
+        for ob in obs:
+            p['obligations'] += 1
+            if ob.verdict == 'proved':
+                p['discharged'] += 1
+                p['by_backend'][ob.backend] = p['by_backend'].get(ob.backend, 0) + 1
+            elif ob.kind in DECISIVE:
+                failed_dec.append(ob)
+            else:
+                failed_aux.append(ob)
+        minimum = baseline.get(prop, {}).get(fname)
+        if minimum is not None and len(obs) < minimum * 0.5 and not failed_dec:
+            p['undecided'].append({'function': fname, 'note': 'obligation count dropped from {} to {}'.format(minimum, len(obs))})
+        for ob in failed_dec:
+            _report(ctx, prop, fname, c, ob)
+        if failed_aux and not failed_dec:
+            for ob in failed_aux:
+                p['undecided'].append({'function': fname, 'obligation': ob.ident, 'verdict': ob.verdict})
+            print('PROOF-DEGRADED {}: {} auxiliary obligation(s) (loop invariants) no longer discharge; '
+                  'the decisive contract is decided by the bounded tier'.format(fname, len(failed_aux)))
+            hook = c.get('native')
+            if hook:
+                _native(ctx, prop, fname, hook, failed_aux[0], aux=True)
+    if lean and todo:
+        run_lean(ctx)
+    ctx.assume('pyvc: home-made symbolic executor over the real AST (DESIGN 2.1); python ints = mathematical ints (exact); '
+               'declared parameter types; lemma schemas of pyvc/specs.py as proved in lemmas/*.lean (correspondence by name, lemmas/manifest.json)')
+    ctx.assume('z3 5.1 (python API), /usr/bin/cvc5 and /usr/bin/z3 4.8 for z3 unknowns')
+    for (rel, qual), c in contracts.items():
+        if c.get('assumed') and any(prop in cc.get('property', []) for cc in [c] + [x for _, x in todo]):
+            ctx.assume('assumed contract {}:{} - {}'.format(rel, qual, c['assumed']))
+        if c.get('note') and prop in c.get('property', []):
+            ctx.assume('{}:{} - {}'.format(rel, qual, c['note']))
+    return per_func
+
+
+def _native(ctx, prop, fname, hook, ob, aux=False):
+    mod, fn = hook.split(':')
+    f = getattr(importlib.import_module(mod), fn)
+    hit = f(ob.model or {})
+    if hit:
+        key, what, replay = hit
+        ctx.violation(key, 'obligation [{}] of {} failed ({}); concrete failing input on the real code: {}'.format(
+            ob.name, fname, ob.verdict, what), replay, kind='obligation-replayed')
+        return True
+    return False
+
+
+def _report(ctx, prop, fname, c, ob):
+    hook = c.get('native')
+    if hook and _native(ctx, prop, fname, hook, ob):
+        return
+    short = fname.split(':')[1]
+    key = 'obligation:{}:{}:{}'.format(short, ob.kind, ''.join(ch if ch.isalnum() else '_' for ch in ob.name)[:60])
+    what = 'obligation failed: {} [{}] at line {} -> {} by {}; solver model (scalars): {}'.format(
+        fname, ob.name, ob.line, ob.verdict, ob.backend,
+        {k: v for k, v in (ob.model or {}).items() if 'val!' not in v})
+    ctx.violation(key, what, {'obligation': ob.ident, 'verdict': ob.verdict, 'line': ob.line,
+                              'model': ob.model, 'hyps': [str(h)[:300] for h in ob.hyps[-12:]], 'goal': str(ob.goal)[:600]},
+                  kind='obligation-no-input')
+
+
+def run_lean(ctx):
+    """re-check the Lean lemma layer (all files, in parallel)"""
+    sh = os.path.join(core.VERIF, 'lemmas', 'check.sh')
+    if not os.path.exists(sh):
+        ctx.assume('Lean lemma layer not present in this run: lemma schemas are ASSUMED')
+        return
+    t0 = time.time()
+    r = subprocess.run(['bash', sh], capture_output=True, text=True, timeout=3600)
+    dt = time.time() - t0
+    ctx.proof['lean_s'] += dt
+    files = [l.split()[0] for l in r.stdout.splitlines() if l.strip().endswith('ok') or ' ok ' in l]
+    ctx.proof['lean_files'] = sorted(set(ctx.proof['lean_files'] + files))
+    if r.returncode != 0:
+        raise RuntimeError('Lean lemma layer does not compile:\n' + r.stdout[-2000:] + r.stderr[-2000:])
+    ctx.proof['by_backend']['lean-files'] = len(files)
